@@ -517,7 +517,7 @@ func checkC20(r *Run) {
 	r.Rule("R1", "escaping helpers delegate to the standard escapers as the last step: every success return of htmlEscape is template.HTMLEscapeString of the string (or block rendering); jsEscape IS template.JSEscapeString", 2)
 	r.Rule("R2", "raw is the identity conversion of its parameter (and the sink writes template.HTML verbatim, C01.R2)", 1)
 	r.Rule("R3", "toJSON returns template.HTML of the unmodified json.Marshal output on every success path; errors propagate; nothing in the module switches HTML escaping of JSON off", 2)
-	r.Rule("R4", "truncate never splits a character: every slice and every length compared with size is taken on []rune", 3)
+	r.Rule("R4", "truncate never splits a character: every slice and every length compared with size is taken on []rune", 2)
 	r.Rule("R5", "truncate bounds: the prefix slice is dominated by 'len(runes) <= size -> return s' and 'len(trail runes) >= size -> return trail'; the result is prefix + trail", 2)
 	r.Rule("R6", "option access: options are read with comma-ok assertions and the options map is never written", 2)
 	escapersRule(r, "R1")
